@@ -9,12 +9,17 @@
     [spec_valid_backward j] (decidable): the document has the shape the specification requires
     (known type names, required attributes, fullnames by the spec's rules, every reference to a
     fullname whose definition has already started, no fullname defined twice). The specification
-    requires definition before use; the crate also accepts use before definition -- for those
-    documents the late-resolution lemma (C07_forward_resolution) is proved and the rest is decided
-    by the correspondence run. *)
+    requires definition before use; the crate also accepts use before definition.  For those
+    documents ([spec_valid_any_order j]: same shape rules, references to any fullname the document
+    defines anywhere, proofs in proofs/ParseForward{Defs,Layout,Proofs,Hoist}.v) the same is proved:
+    the parser returns the designated graph [graph_any j], every reference slot holds the one node
+    carrying the reference's specification fullname, and the canonical form is the specification's
+    Parsing Canonical Form of the HOISTED document (each definition moved to the first place, in
+    document order, where its fullname is mentioned). *)
 From Coq Require Import List NArith.
 Require Import Base Schema Text Json Parse CanonicalForm Rabin PcfSpec CrcSpec.
 Require Import SchemaTextProofs ParseResolveDefs ParseRejectProofs ParseResolveProofs.
+Require Import ParseForwardDefs ParseForwardLayout ParseForwardProofs ParseForwardHoist.
 Import ListNotations.
 
 (* per edge: the key the parser computes for a definition / a reference is the specification's
@@ -66,11 +71,58 @@ Theorem C07_forward_resolution : forall names unresolved res i k,
   exists idx, assoc_key k names = Some idx /\ fix_key res (pk_late i) = idx.
 Proof. exact late_resolution. Qed.
 
+(* references in any order (use before definition included): the document parses; the graph is the
+   designated layout [glay]; every reference slot -- whether the reference follows or precedes the
+   definition -- holds [spec_index r f] for the reference's specification fullname f; the node at
+   that index carries the fullname f, and no other node does *)
+Theorem C07_any_order : forall j,
+  spec_valid_any_order j = true -> ~ rec_cycle (graph_any j) ->
+  exists r, raw_of_json j = Ok r /\
+    parse_schema j = Ok (graph_any j) /\
+    graph_any j = snd (glay (spec_index r) r None O) /\
+    (forall f, In f (rrefs r None) -> named_at (graph_any j) (spec_index r f) f) /\
+    (forall f i, named_at (graph_any j) i f -> i = spec_index r f).
+Proof. exact C07_resolve_any_order. Qed.
+Theorem C07_any_order_iff : forall j,
+  spec_valid_any_order j = true ->
+  (rec_cycle (graph_any j) -> parse_schema j = Err EData) /\
+  (~ rec_cycle (graph_any j) -> parse_schema j = Ok (graph_any j)).
+Proof. exact C07_resolve_any_order_iff. Qed.
+(* every record, enum or fixed the document defines has exactly one node *)
+Theorem C07_any_order_definitions : forall j r,
+  spec_valid_any_order j = true -> raw_of_json j = Ok r ->
+  forall f, elook f (rcollect r None []) = Some true ->
+    named_at (graph_any j) (spec_index r f) f /\ forall i, named_at (graph_any j) i f -> i = spec_index r f.
+Proof. exact C07_definitions_any_order. Qed.
+(* its canonical form is the specification's Parsing Canonical Form of the hoisted document (the
+   writer's guard against cycles of unnamed types is the only other outcome left open: that it
+   does not fire on a parsed tree is not proved; the correspondence run never saw it fire) *)
+Theorem C07_any_order_canonical : forall j r g,
+  spec_valid_any_order j = true -> raw_of_json j = Ok r -> parse_schema j = Ok g ->
+  g = graph_any j /\
+  (canonical_form (hoist_fuel r) g = Ok (rpcf None (hoist r)) \/ is_err (canonical_form (hoist_fuel r) g)).
+Proof. exact C07_resolve_forward_canonical. Qed.
+(* definition before use is the special case: valid backward => valid in any order, the two
+   designated graphs coincide and hoisting changes nothing *)
+Theorem C07_backward_is_any_order : forall j,
+  spec_valid_backward j = true -> spec_valid_any_order j = true.
+Proof. exact spec_valid_backward_any_order. Qed.
+Theorem C07_any_order_backward : forall j r,
+  spec_valid_backward j = true -> ~ rec_cycle (graph_of j) -> raw_of_json j = Ok r ->
+  parse_schema j = Ok (graph_any j) /\
+  canonical_form (hoist_fuel r) (graph_any j) = Ok (rpcf None (hoist r)) /\
+  rpcf None (hoist r) = rpcf None r.
+Proof. exact C07_forward_canonical_backward. Qed.
+
 (* non-vacuity and the documented deviations *)
 Check doc_names_valid.           (* dotted name, "" namespace, inheritance through array/map/union *)
 Check doc_names_resolves.
 Check doc_fwd_parses.            (* forward reference accepted and resolved *)
 Check doc_fwd_canonical.
+Check doc_fwd_any.               (* a use-before-definition document is valid in any order and parses to graph_any *)
+Check doc_f2_graph.
+Check doc_f2_canonical_by_theorem.
+Check doc_undefined_invalid.
 Check C07_resolve_needs_acyclic.
 Check C07_nested_type_refuted.   (* spec-allowed spellings the crate rejects *)
 Check C07_name_on_array_refuted.
